@@ -8,6 +8,7 @@ package operationapplier
 
 import (
 	"fmt"
+	"math"
 
 	"github.com/pkg/errors"
 
@@ -380,6 +381,12 @@ func (s *Applier) verifyAnchoringTimeRange(from, until int64, anchor uint64) err
 
 func (s *Applier) getAnchorUntil(from, until int64) int64 {
 	if from != 0 && until == 0 {
+		// anchorFrom plus the maximum operation time delta, without wrapping around: a delta too large for the sum
+		// (an operator's "never expires") gives a window that never closes
+		if s.MaxOperationTimeDelta > math.MaxInt64 || from > math.MaxInt64-int64(s.MaxOperationTimeDelta) {
+			return math.MaxInt64
+		}
+
 		return from + int64(s.MaxOperationTimeDelta)
 	}
 
